@@ -120,6 +120,10 @@ func genStderr(tape *simrt.Tape, n int) []stderrLine {
 		case 5:
 			l.Text = fmt.Sprintf("  %s:no space after colon %d", c11Name(0), i)
 		}
+		if tape.Bool(1, 16, "s.longline") {
+			// a line longer than any fixed line buffer (bufio.Scanner gives up at 64 KiB)
+			l = stderrLine{Text: fmt.Sprintf("long log line %d ", i) + strings.Repeat("x", 65536+tape.Choose(3, "s.longextra")*70000)}
+		}
 		l.AtExit = tape.Bool(1, 3, "s.atexit")
 		lines = append(lines, l)
 	}
